@@ -17,9 +17,19 @@
 (* The program (DAG, settings, task scripts) is the constant record P of   *)
 (* the generated module Program.                                           *)
 (*                                                                         *)
+(* Covered: all join types, failure statuses, synthetic before / after      *)
+(* children (also chained among themselves), builder-built tasks and the   *)
+(* zombie re-plan, jump loops and forward jumps, signals (persistent /      *)
+(* transient, buffering), mutex / deferred-choice claim rows, OR-split,     *)
+(* cancel (workflow, region), operator pause / unpause / restart, the       *)
+(* in-memory duplicate filter, recovery (atomic, or concurrent with the     *)
+(* handlers: SplitSweep), dead-lettering, injected look-up faults.          *)
+(*                                                                         *)
 (* Races between several workers are NOT in this module (a single worker   *)
 (* is the only writer of stage rows); they are specified at statement /    *)
-(* segment grain in Race*.tla, Store.tla and Queue.tla.                    *)
+(* segment grain in Race.tla, Progress.tla, SuspendRace.tla, Slots.tla,     *)
+(* WfRow.tla, Store.tla and Queue.tla.  cnt.sw (the state of a sweep that   *)
+(* is under way) is the one piece of a second thread kept here.             *)
 (***************************************************************************)
 EXTENDS Naturals, Sequences, FiniteSets, TLC, Program
 
@@ -51,7 +61,7 @@ VARIABLES
                   \*           duplicate filter (seen = ids it was told about, auth = negatives may be trusted)
   ledger,         \* ghost: per task the sequence of executions (what the task saw)
   gh,             \* ghost record: starts / rearms per stage, tasks with a recorded result, cancel bookkeeping
-  cnt,            \* ghost: bounded-exploration counters
+  cnt,            \* ghost: bounded-exploration counters (+ cnt.sw: local state of a recovery sweep that is under way)
   lbl             \* ghost: label of the last step (excluded from the fingerprint by VIEW)
 
 durable == <<wf, st, tk, q, dlq, done, claims, nextId, pushed>>
